@@ -200,11 +200,17 @@ func init() {
 			}
 			// the record dispatcher from an arbitrary reference-timestamp state (shared with C13)
 			js = append(js, job("fit", "H13", "defkind", 0), job("fit", "H13b"))
+			// streams at the size limits of the format (file_id record beyond the 4096-byte buffer, 90-field definition, 5 x 255 developer bytes)
+			for _, extra := range []int{0, 17} {
+				for _, chunk := range []int{0, 7} {
+					js = append(js, job("fit", "Hwide", "extra", extra, "hrlast", chunk%2, "chunk", chunk))
+				}
+			}
 			return js
 		},
 		MustReach: []string{"decoded", "rejected", "routed", "C01.field.consumed-size", "entry-points-returned"},
 		Bounds: map[string]interface{}{
-			"quick": "H01a (parse one record, then hand the message to a File of every hosting type, which routes it and expands components): every single-field definition, exhaustively: each of the profile's message numbers (from the tree) plus one unknown number x all 256 field numbers x all 256 base-type bytes x all sizes 0-255 x both byte orders x all data bytes (string sizes restricted to {0..8,16,127,128,254,255}; string arrays: sizes 0..6 fully symbolic, larger with one terminator); H01s: all five entry points (Decode also with all options) on every stream of the model with n = 2 records, whole and (half of the sequences) cut at every offset, chunk sizes 1, 3, unlimited; H13/H13b: one record through the dispatcher from an arbitrary reference timestamp",
+			"quick": "H01a (parse one record, then hand the message to a File of every hosting type, which routes it and expands components): every single-field definition, exhaustively: each of the profile's message numbers (from the tree) plus one unknown number x all 256 field numbers x all 256 base-type bytes x all sizes 0-255 x both byte orders x all data bytes (string sizes restricted to {0..8,16,127,128,254,255}; string arrays: sizes 0..6 fully symbolic, larger with one terminator); H01s: all five entry points (Decode also with all options) on every stream of the model with n = 2 records, whole and (half of the sequences) cut at every offset, chunk sizes 1, 3, unlimited; H13/H13b: one record through the dispatcher from an arbitrary reference timestamp; Hwide: all entry points on a stream at the size limits of the format (file_id record with 0 or 17 unlisted 255-byte fields, a 90-field definition, a definition with 5 developer fields of 255 bytes), whole and in 7-byte reads",
 			"thorough": "H01a with every string size and two terminators in string arrays of up to 24 bytes; H01s with n = 3 (every third of the 1000 kind orders) and every sequence cut",
 		},
 		Assumptions: commonAssumptions,
@@ -239,7 +245,7 @@ func init() {
 		Meta: "fit.Hmeta",
 		Jobs: func(tier string, meta map[string]int) []Job {
 			js := []Job{job("dyncrc16", "H04lin"), job("dyncrc16", "H04ker"), job("dyncrc16", "H04burst"), job("dyncrc16", "H14c"),
-				job("fit", "H04hdr", "size", 12), job("fit", "H04hdr", "size", 14)}
+				job("fit", "H04hdr", "size", 12), job("fit", "H04hdr", "size", 14), job("fit", "H04agree")}
 			const fileLen = 14 + 34 + 2
 			bits := 8
 			if tier == "thorough" {
@@ -258,7 +264,11 @@ func init() {
 						}
 					}
 					if free {
-						js = append(js, job("fit", "H04burst", "q", q, "o", o, "bits", bits))
+						b := bits
+						if q >= 11 && q <= 13 {
+							b = 16 // the header CRC bytes: zeroing both turns the header check off
+						}
+						js = append(js, job("fit", "H04burst", "q", q, "o", o, "bits", b))
 					}
 				}
 			}
@@ -293,9 +303,9 @@ func init() {
 			}
 			return js
 		},
-		MustReach: []string{"C04.lemma.linear", "C04.lemma.kernel", "C04.lemma.injective", "C04.lemma.burst", "C04.hdr.rule", "C04.hdr.method-vs-decodeheader", "C04.burst.decode-detects", "C04.sym.checkintegrity-detects", "C04.encode-output-passes-checkintegrity"},
+		MustReach: []string{"C04.lemma.linear", "C04.lemma.kernel", "C04.lemma.injective", "C04.lemma.burst", "C04.hdr.rule", "C04.hdr.method-vs-decodeheader", "C04.burst.decode-detects", "C04.sym.checkintegrity-detects", "C04.encode-output-passes-checkintegrity", "C04.agree.checkintegrity-accepts-what-decode-accepts"},
 		Bounds: map[string]interface{}{
-			"quick":    "lemmas on updateByte: none (all states, bytes, 16-bit patterns, 8 bit offsets); header verdicts: all 2^104 / 2^88 header byte values for sizes 14 and 12; direct bursts: every pattern of <= 8 contiguous bits at every bit position of one concrete 50-byte activity file (Decode and CheckIntegrity), every <= 16-bit pattern at every position of every accepted frame with a 12-byte header and D <= 2 arbitrary data bytes (CheckIntegrity); Encode output passes CheckIntegrity: one File per (file type, hosted message) with every field set to fixed values, both byte orders, headers with and without CRC",
+			"quick":    "lemmas on updateByte: none (all states, bytes, 16-bit patterns, 8 bit offsets); header verdicts: all 2^104 / 2^88 header byte values for sizes 14 and 12; direct bursts: every pattern of <= 8 contiguous bits (<= 16 at the header CRC bytes) at every bit position of one concrete 50-byte activity file (Decode and CheckIntegrity); the same file with a stored header CRC of 0 (not computed) or the computed one: all entry points accept, every <= 16-bit pattern at every position of every accepted frame with a 12-byte header and D <= 2 arbitrary data bytes (CheckIntegrity); Encode output passes CheckIntegrity: one File per (file type, hosted message) with every field set to fixed values, both byte orders, headers with and without CRC",
 			"thorough": "as quick with <= 16-bit patterns on the concrete file and D <= 4",
 		},
 		Outside: []string{"frames longer than the direct bound are covered by the lemma composition in DESIGN.md section 5/C04 (linearity + kernel + burst lemma), which is a paper argument over the machine-checked lemmas",
@@ -363,11 +373,17 @@ func init() {
 			for k := 0; k < 16; k++ {
 				js = append(js, job("fit", "H13c", "k", k))
 			}
+			for k := 1; k < 16; k++ {
+				js = append(js, job("fit", "H13d", "k", k, "comp", 0))
+				if k <= 3 {
+					js = append(js, job("fit", "H13d", "k", k, "comp", 1))
+				}
+			}
 			return js
 		},
-		MustReach: []string{"C13.def.replaces-its-slot", "C13.def.other-slots-untouched", "C13.data.undefined-slot-is-error", "C13.data.consumed-by-selected-slot", "C13.data.routed-by-selected-slot", "C13.data.definitions-never-written", "C13.dev.records-read-with-their-own-definition", "C13.dev.first-slot-descriptors-kept", "C13.redef.consumed-by-latest-definition", "C13.redef.slot-holds-exactly-the-latest-definition"},
+		MustReach: []string{"C13.def.replaces-its-slot", "C13.def.other-slots-untouched", "C13.data.undefined-slot-is-error", "C13.data.consumed-by-selected-slot", "C13.data.routed-by-selected-slot", "C13.data.definitions-never-written", "C13.dev.records-read-with-their-own-definition", "C13.dev.first-slot-descriptors-kept", "C13.redef.consumed-by-latest-definition", "C13.redef.slot-holds-exactly-the-latest-definition", "C13.chain.definitions-do-not-survive-into-the-next-file"},
 		Bounds: map[string]interface{}{
-			"quick":    "one record (all 256 header bytes, arbitrary record bytes) through the real decodeFileData loop from a state where all 16 slots hold pairwise distinguishable definitions (different message, record length 2..17, alternating byte order) except at most one nil slot (17 choices); definition records carry one of three bodies (with/without one developer field): a different message, the slot's own layout with the opposite byte order, or the slot's definition verbatim; plus (H13b) two developer-field definitions for two local types (every slot and its two neighbours by bit flip, developer field sizes 1-4, both orders) followed by records of both; plus (H13c) every slot redefined with 0..2 fields of 1..3 bytes, either byte order, with/without 0..2 developer fields of 1..3 bytes, followed by a record of that slot and one of the next slot (arbitrary bytes)",
+			"quick":    "one record (all 256 header bytes, arbitrary record bytes) through the real decodeFileData loop from a state where all 16 slots hold pairwise distinguishable definitions (different message, record length 2..17, alternating byte order) except at most one nil slot (17 choices); definition records carry one of three bodies (with/without one developer field): a different message, the slot's own layout with the opposite byte order, or the slot's definition verbatim; plus (H13b) two developer-field definitions for two local types (every slot and its two neighbours by bit flip, developer field sizes 1-4, both orders) followed by records of both; plus (H13c) every slot redefined with 0..2 fields of 1..3 bytes, either byte order, with/without 0..2 developer fields of 1..3 bytes, followed by a record of that slot and one of the next slot (arbitrary bytes); plus (H13d) a chain of two files where the second uses a local type (1..15, also through compressed headers for 1..3) only the first defines",
 			"thorough": "same",
 		},
 		Outside: []string{"arbitrary interleavings follow by induction on the one-record step (slot contents only change by replacement; other slots pointer-identical) — paper argument",
@@ -413,9 +429,10 @@ func init() {
 					js = append(js, msgJobs(meta, "fit", "H02b", "maxb", maxb, "menu", menu, "first", first)...)
 				}
 			}
+			js = append(js, job("fit", "Hwide", "extra", 0, "hrlast", 0, "chunk", 0), job("fit", "Hwide", "extra", 0, "hrlast", 1, "chunk", 0))
 			return js
 		},
-		MustReach: []string{"C02.compatible-definition-accepted", "C02.compatible-record-decodes", "C02.value.scalar", "C02.value.time", "C02.value.localtime", "C02.value.lat", "C02.value.lng", "C02.value.string", "C02.value.string-array", "C02.value.array-element", "C02.absent-fields-invalid", "compared", "C02.multi.definition-accepted", "C02.multi.record-decodes", "C02.multi.absent-fields-invalid", "C02.multi.consumed", "compared-multi", "C02.second-record-decodes", "compared-second"},
+		MustReach: []string{"C02.compatible-definition-accepted", "C02.compatible-record-decodes", "C02.value.scalar", "C02.value.time", "C02.value.localtime", "C02.value.lat", "C02.value.lng", "C02.value.string", "C02.value.string-array", "C02.value.array-element", "C02.absent-fields-invalid", "compared", "C02.multi.definition-accepted", "C02.multi.record-decodes", "C02.multi.absent-fields-invalid", "C02.multi.consumed", "compared-multi", "C02.second-record-decodes", "compared-second", "C02.wide.values"},
 		Bounds: map[string]interface{}{
 			"quick":    "single-field definitions: every profile message x every listed field x every compatible (base type, size) pair x both byte orders x all data bytes, compared with a reference decoder, each followed by a second record under the same definition that carries the invalid value; string sizes restricted to {0..8,16,127,128,254,255}; string arrays: sizes 0..6 fully symbolic, larger sizes with one terminator at any position; two-field definitions (H02b): a disturber (time/coordinate field at any compatible width, unlisted field of 1-4 bytes, developer field of 1-4 bytes, string of 1-3 bytes, array of 1-2 elements) before or after any known scalar field among the message's first 3 struct fields at its profile type, both byte orders, all data bytes",
 			"thorough": "as quick with every string size 0..255, two terminators in string arrays of up to 24 bytes, and the first 8 struct fields as neighbours in H02b",
@@ -436,7 +453,7 @@ func encJobs(tier string, meta map[string]int) []Job {
 		symoff = 1
 	}
 	add := func(ti, gmn, fi, fj, two, big, crc int) {
-		js = append(js, job("fit", "H05", "ti", ti, "gmn", gmn, "fi", fi, "fj", fj, "two", two, "big", big, "crc", crc, "symoff", symoff))
+		js = append(js, job("fit", "H05", "ti", ti, "gmn", gmn, "fi", fi, "fj", fj, "two", two, "big", big, "crc", crc, "symoff", symoff, "hist", 0))
 	}
 	slot := func(ti, gmn int) {
 		nf := meta[fmt.Sprintf("nf_%d", gmn)]
@@ -452,6 +469,8 @@ func encJobs(tier string, meta map[string]int) []Job {
 		for big := 0; big <= 1; big++ {
 			add(ti, gmn, -1, -1, 0, big, 1-big) // every field set
 		}
+		// the same after an Encode that failed part-way
+		js = append(js, job("fit", "H05", "ti", ti, "gmn", gmn, "fi", -1, "fj", -1, "two", 0, "big", gmn%2, "crc", 1, "symoff", symoff, "hist", 1))
 	}
 	for ti := 0; ti < 17; ti++ {
 		for i := 0; i < meta[fmt.Sprintf("nhost_%d", ti)]; i++ {
@@ -674,11 +693,16 @@ func init() {
 					js = append(js, job("fit", "H10b", "n", n, "kinds", k, "chunk", chunk))
 				}
 			}
+			for _, extra := range []int{0, 17} {
+				for _, chunk := range []int{0, 1, 7, 5000} {
+					js = append(js, job("fit", "Hwide", "extra", extra, "hrlast", (chunk+extra)%2, "chunk", chunk))
+				}
+			}
 			return js
 		},
-		MustReach: []string{"C10.decode.consumes-exactly-the-frame", "C10.decode.never-requests-beyond-frame", "C10.checkintegrity.consumes-exactly-the-frame", "C10.decodeheader.same-header", "C10.headerandfileid.same-fileid", "C10.chained.one-file-per-input", "C10.chained.equals-decoding-alone"},
+		MustReach: []string{"C10.decode.consumes-exactly-the-frame", "C10.decode.never-requests-beyond-frame", "C10.checkintegrity.consumes-exactly-the-frame", "C10.decodeheader.same-header", "C10.headerandfileid.same-fileid", "C10.chained.one-file-per-input", "C10.chained.equals-decoding-alone", "C10.wide.headerandfileid-same-as-decode", "C10.wide.consumes-exactly-the-frame"},
 		Bounds: map[string]interface{}{
-			"quick":    streamModel + "; n = 2; the frame is followed by three arbitrary bytes; reader chunk sizes 1, 3, 7 and unlimited; chained: two such files",
+			"quick":    streamModel + "; n = 2; the frame is followed by three arbitrary bytes; reader chunk sizes 1, 3, 7 and unlimited; chained: two such files; Hwide: a stream at the size limits of the format (file_id record with 0 or 17 unlisted 255-byte fields, i.e. ending beyond the 4096-byte buffer; a 90-field definition; 5 developer fields of 255 bytes) through every entry point with read sizes 1, 7, 5000 and unlimited",
 			"thorough": "as quick with n = 3 (every third of the 1000 kind orders)",
 		},
 		Outside:     []string{"streams outside the model (device files), chunk patterns that vary within a stream, chains of more than two files, reads larger than the 4096-byte internal buffer"},
@@ -702,7 +726,11 @@ func init() {
 								continue
 							}
 						}
-						js = append(js, job("fit", "H11a", "n", n, "kinds", k, "crc", (k+chunk)%2, "chunk", chunk, "fault", fault))
+						we := (k / 6) % 2
+						js = append(js, job("fit", "H11a", "n", n, "kinds", k, "crc", (k+chunk)%2, "chunk", chunk, "fault", fault, "we", we))
+						if tier == "thorough" {
+							js = append(js, job("fit", "H11a", "n", n, "kinds", k, "crc", (k+chunk)%2, "chunk", chunk, "fault", fault, "we", 1-we))
+						}
 					}
 				}
 			}
@@ -719,7 +747,7 @@ func init() {
 			"thorough": "as quick with n = 3 (every third of the 1000 kind orders) and the full (chunk, fault) grid",
 		},
 		Outside:     []string{"streams outside the model; readers that violate the io.Reader contract; faults that are not persistent"},
-		Assumptions: append([]string{"reader = harness vReader: clean io.EOF at the cut, or a persistent non-EOF error from the fault offset on"}, commonAssumptions...),
+		Assumptions: append([]string{"reader = harness vReader: clean io.EOF at the cut, or a persistent non-EOF error from the fault offset on; the error is delivered on its own call or together with the last bytes (half of the instances each in quick, both in thorough)"}, commonAssumptions...),
 	})
 	reg(&CheckDef{
 		ID: "C16",
@@ -735,15 +763,15 @@ func init() {
 					js = append(js, job("fit", "H16a", "n", nc, "kinds", k, "crc", (k+1)%2, "chunk", []int{0, 1, 3}[(k+1)%3], "cut", 1))
 				}
 			}
-			js = append(js, job("fit", "H16b", "n", 1), job("fit", "H16b", "n", 2))
+			js = append(js, job("fit", "H16b", "n", 1), job("fit", "H16b", "n", 2), job("fit", "H16c"))
 			if tier == "thorough" {
 				js = append(js, job("fit", "H16b", "n", 3))
 			}
 			return js
 		},
-		MustReach: []string{"C16.options.same-error", "C16.options.same-bytes-consumed", "C16.options.same-messages", "C16.fields.exact", "C16.messages.exact", "C16.fields.absent-without-option", "C16.fields.sorted", "C16.messages.sorted", "C16.fields.count-is-number-of-records", "C16.messages.count-is-number-of-records", "C16.fields.every-key-listed-once"},
+		MustReach: []string{"C16.options.same-error", "C16.options.same-bytes-consumed", "C16.options.same-messages", "C16.fields.exact", "C16.messages.exact", "C16.fields.absent-without-option", "C16.fields.sorted", "C16.messages.sorted", "C16.fields.count-is-number-of-records", "C16.messages.count-is-number-of-records", "C16.fields.every-key-listed-once", "C16.fields.completed-file-id-record-is-accounted-for", "failed-after-file-id"},
 		Bounds: map[string]interface{}{
-			"quick":    streamModel + "; n = 2, uncut (every sequence) and cut at every offset after the file_id record (every third sequence); all 8 option combinations (symbolic); counts and order of the exported lists (H16b): up to 2 rounds of (definition of one of 6 known messages, two with numbers >= 256, with an arbitrary unlisted field number + record; definition of an arbitrary unknown message + record) through the real record loop, keys may repeat, every map iteration order",
+			"quick":    streamModel + "; n = 2, uncut (every sequence) and cut at every offset after the file_id record (every third sequence); all 8 option combinations (symbolic); counts and order of the exported lists (H16b): up to 2 rounds of (definition of one of 6 known messages, two with numbers >= 256, with an arbitrary unlisted field number + record; definition of an arbitrary unknown message + record) through the real record loop, keys may repeat, every map iteration order; (H16c) a file_id record with an arbitrary file type byte and an arbitrary unlisted field: for rejected file types the lists returned with the error account for the file_id record",
 			"thorough": "as quick with n = 3 (every third of the 1000 kind orders) and 3 rounds",
 		},
 		Outside:     []string{"streams outside the model; more than one distinct unknown message number / unlisted field number per stream (the model has one of each, with arbitrary values)"},
@@ -769,6 +797,7 @@ func init() {
 			}
 			js = append(js, job("fit", "H08b"), job("fit", "H08c"))
 			js = append(js, hostJobs(meta, "H08e", tier == "thorough")...)
+			js = append(js, job("fit", "Hwide8"))
 			return js
 		},
 		MustReach:      []string{"C08.frame.no-state-survives-a-call", "C08.frame.accumulators-are-per-call", "C08.history.decode-independent-of-history", "C08.encode.identical-bytes-for-identical-files", "C08.encode.output-decodes", "C08.sequence.decode-independent-of-history", "C08.sequence.encode-independent-of-history", "C08.frame.encode-writes-no-shared-object", "C08.sequence.encode-independent-of-earlier-encodes"},
@@ -796,6 +825,7 @@ func init() {
 			}
 			js = append(js, job("fit", "H09acc"))
 			js = append(js, hostJobs(meta, "H09e", tier == "thorough")...)
+			js = append(js, job("fit", "Hwide8"))
 			return js
 		},
 		MustReach:      []string{"C09.no-shared-object-is-written", "C09.same-result-as-alone", "C09.race-free"},
